@@ -303,6 +303,15 @@ class Interp:
             raise
 
     def stmt(self, st: ast.stmt) -> None:
+        from .normal import as_loop
+
+        # comprehension statements of the normal form are read as the loops they stand for
+        if not (isinstance(st, ast.Assign) and isinstance(st.value, (ast.ListComp, ast.DictComp, ast.SetComp)) and len(st.value.generators) == 1 and isinstance(st.targets[0], ast.Name)):
+            lp = as_loop(st)
+            if lp is not None:
+                for x in lp:
+                    self.stmt(x)
+                return
         if isinstance(st, ast.Assign):
             t = st.targets[0]
             if isinstance(t, ast.Name):
@@ -329,7 +338,9 @@ class Interp:
             tgt = st.target.value if isinstance(st.target, ast.Subscript) else st.target
             self.bind(unparse(tgt), self.ev(st.value), st)
         elif isinstance(st, ast.Expr) and isinstance(st.value, ast.Call) and isinstance(st.value.func, ast.Attribute) and st.value.func.attr == 'append':
-            self.bind(unparse(st.value.func.value), self.ev(st.value.args[0]), st)
+            recv = st.value.func.value
+            recv = recv.value if isinstance(recv, ast.Subscript) else recv
+            self.bind(unparse(recv), self.ev(st.value.args[0]), st)
         elif isinstance(st, ast.For):
             self._loops.append(unparse(st.iter))
             self._bind_target(st.target, st.iter)
